@@ -45,22 +45,22 @@ type keySpec struct {
 }
 
 type op struct {
-	K       string `json:"k"` // store lookup has del at fire sweep conc
-	Key     int    `json:"key,omitempty"`
-	AtNs    int64  `json:"at_ns,omitempty"`
-	Prompt  bool   `json:"prompt,omitempty"`
-	ID      string `json:"id,omitempty"`
-	Pad     int    `json:"pad,omitempty"`
-	TTLk    int64  `json:"ttl_k,omitempty"`
-	RA      string `json:"ra,omitempty"` // retry-after header value, "-" = header absent
-	RAName  string `json:"ra_name,omitempty"` // spelling of the header name in the response ("" = as configured)
-	Status  int    `json:"status,omitempty"`
-	Sel     int    `json:"sel,omitempty"`
-	DueOnly bool   `json:"due_only,omitempty"`
-	N       int    `json:"n,omitempty"`
-	Lockstep bool  `json:"lockstep,omitempty"`
-	Res     string `json:"res,omitempty"` // observed
-	TNs     int64  `json:"t_ns,omitempty"`
+	K        string `json:"k"` // store lookup has del at fire sweep conc
+	Key      int    `json:"key,omitempty"`
+	AtNs     int64  `json:"at_ns,omitempty"`
+	Prompt   bool   `json:"prompt,omitempty"`
+	ID       string `json:"id,omitempty"`
+	Pad      int    `json:"pad,omitempty"`
+	TTLk     int64  `json:"ttl_k,omitempty"`
+	RA       string `json:"ra,omitempty"`      // retry-after header value, "-" = header absent
+	RAName   string `json:"ra_name,omitempty"` // spelling of the header name in the response ("" = as configured)
+	Status   int    `json:"status,omitempty"`
+	Sel      int    `json:"sel,omitempty"`
+	DueOnly  bool   `json:"due_only,omitempty"`
+	N        int    `json:"n,omitempty"`
+	Lockstep bool   `json:"lockstep,omitempty"`
+	Res      string `json:"res,omitempty"` // observed
+	TNs      int64  `json:"t_ns,omitempty"`
 }
 
 type caseSpec struct {
@@ -613,10 +613,10 @@ func (h *hist) noteMiss(k keySpec, tNs int64) {
 // ---------------------------------------------------------------- runner
 
 type runner struct {
-	v     *sim.Verdict
-	args  sim.Args
-	baseG int
-	dead  bool // settle watchdog fired: goroutine accounting is lost, stop the batch
+	v      *sim.Verdict
+	args   sim.Args
+	baseG  int
+	dead   bool // settle watchdog fired: goroutine accounting is lost, stop the batch
 	seenIL map[string]bool
 }
 
